@@ -4,32 +4,18 @@ use crate::support::*;
 use core::cmp::Ordering;
 pub mod ty {
     #![deny(warnings)]
-    #![allow(dead_code, unused_imports)]
+    #![allow(dead_code, unused_imports, non_snake_case)]
     use crate::support::{A, B, C, Good, Bad, m_eq, m_cmp, m_pcmp, m_hash, m_fmt, m_clone, m_clone_c, m_into, g_eq, g_cmp, g_pcmp, g_hash, g_fmt};
     use educe::Educe;
-
-    // names at the derive site that shadow everything the generated code might be tempted to write unqualified
-    #[allow(non_camel_case_types)] pub struct Option; pub struct Result; pub struct Ordering; pub struct Clone; pub struct Copy;
-    pub struct Default; pub struct Debug; pub struct PartialEq; pub struct Eq; pub struct PartialOrd; pub struct Ord; pub struct Hash;
-    pub struct Hasher; pub struct Into; pub struct From; pub struct Deref; pub struct DerefMut; pub struct Formatter; pub struct String;
-    pub struct Vec; pub struct Box; pub struct PhantomData; pub struct Sized; pub struct Send; pub struct Iterator; pub struct Self_;
-    #[allow(non_snake_case)] pub fn Some() {} #[allow(non_snake_case)] pub fn None() {} #[allow(non_snake_case)] pub fn Ok() {} #[allow(non_snake_case)] pub fn Err() {}
-    pub fn drop() {} pub mod core {} pub mod std {} pub mod alloc {} pub mod fmt {} pub mod cmp {} pub mod hash {} pub mod clone {} pub mod marker {}
-    #[allow(unused_macros)] macro_rules! stringify { ($($t:tt)*) => { "SHADOWED" } }
-    #[allow(unused_macros)] macro_rules! unreachable { ($($t:tt)*) => { () } }
-    #[allow(unused_macros)] macro_rules! panic { ($($t:tt)*) => { () } }
-    #[allow(unused_macros)] macro_rules! matches { ($($t:tt)*) => { true } }
-    #[allow(unused_macros)] macro_rules! write { ($($t:tt)*) => { () } }
-    #[allow(unused_macros)] macro_rules! format_args { ($($t:tt)*) => { () } }
-    #[allow(unused_macros)] macro_rules! assert { ($($t:tt)*) => { () } }
 #[derive(Educe)]
-#[educe(Ord, Eq, PartialOrd, PartialEq)]
-pub struct T(#[educe(PartialOrd(rank = 5))] pub A<0>, pub A<0>);
+#[educe(Debug)]
+#[educe(PartialOrd, Eq, PartialEq)]
+pub enum T { C, Some {  }, B { #[educe(Debug(ignore = false), PartialOrd(rank(4)))] other: A<0>, #[educe(PartialOrd(rank = "6", ignore(false)))] #[educe(Debug(ignore = true))] c: A<1>, b: A<2>, #[educe(PartialOrd(method = "m_pcmp", rank("2")))] self_data: A<0> } }
 }
 pub use ty::T;
 
-pub fn values() -> Vec<T> { vec![T(A(0), A(0)), T(A(0), A(1)), T(A(0), A(7)), T(A(1), A(0)), T(A(1), A(1)), T(A(1), A(7)), T(A(7), A(0)), T(A(7), A(1)), T(A(7), A(7))] }
-pub fn show(x: &T) -> String { #[allow(unused_variables)] match x { T(p0, p1) => format!("T({},{})", sv(p0), sv(p1)) } }
-pub fn o_disc(x: &T) -> i128 { match x { T(_, _) => 0 } }
-pub fn o_cmp(a: &T, b: &T) -> Ordering { match (a, b) { (T(a0, a1), T(b0, b1)) => { let c = ::core::cmp::Ord::cmp(a1, b1); if c != Ordering::Equal { return c; } let c = ::core::cmp::Ord::cmp(a0, b0); if c != Ordering::Equal { return c; } Ordering::Equal } } }
-pub fn run(out: &mut Out) { let vs = values(); for (i, a) in vs.iter().enumerate() { for (j, b) in vs.iter().enumerate() { let e = o_cmp(a, b); let g = ::core::cmp::Ord::cmp(a, b); out.check(g == e, "ord_27", "cmp", || format!("cmp({}, {}) = {:?} expected {:?}", show(a), show(b), g, e)); let g2 = ::core::cmp::PartialOrd::partial_cmp(a, b); out.check(g2 == Some(e), "ord_27", "partial_is_some_cmp", || format!("partial_cmp({}, {}) = {:?} expected Some({:?})", show(a), show(b), g2, e)); } } }
+pub fn values() -> Vec<T> { vec![T::C, T::Some {  }, T::B { other: A(0), c: A(7), b: A(1), self_data: A(1) }, T::B { other: A(1), c: A(1), b: A(0), self_data: A(0) }, T::B { other: A(0), c: A(1), b: A(1), self_data: A(7) }, T::B { other: A(7), c: A(7), b: A(1), self_data: A(7) }, T::B { other: A(7), c: A(7), b: A(7), self_data: A(0) }, T::B { other: A(7), c: A(1), b: A(7), self_data: A(7) }, T::B { other: A(1), c: A(7), b: A(0), self_data: A(0) }, T::B { other: A(1), c: A(7), b: A(1), self_data: A(0) }, T::B { other: A(7), c: A(1), b: A(7), self_data: A(1) }, T::B { other: A(1), c: A(1), b: A(7), self_data: A(1) }, T::B { other: A(0), c: A(7), b: A(0), self_data: A(0) }, T::B { other: A(1), c: A(1), b: A(0), self_data: A(1) }] }
+pub fn show(x: &T) -> String { #[allow(unused_variables)] match x { T::C => format!("C()"), T::Some {  } => format!("Some()"), T::B { other: p0, c: p1, b: p2, self_data: p3 } => format!("B({},{},{},{})", sv(p0), sv(p1), sv(p2), sv(p3)) } }
+pub fn o_disc(x: &T) -> i128 { match x { T::C => 0, T::Some {  } => 1, T::B { other: _, c: _, b: _, self_data: _ } => 2 } }
+pub fn o_pcmp(a: &T, b: &T) -> Option<Ordering> { match (a, b) { (T::C, T::C) => {  Some(Ordering::Equal) }, (T::Some {  }, T::Some {  }) => {  Some(Ordering::Equal) }, (T::B { other: a0, c: a1, b: a2, self_data: a3 }, T::B { other: b0, c: b1, b: b2, self_data: b3 }) => { match ::core::cmp::PartialOrd::partial_cmp(a2, b2) { Some(Ordering::Equal) => (), x => return x } match m_pcmp(a3, b3) { Some(Ordering::Equal) => (), x => return x } match ::core::cmp::PartialOrd::partial_cmp(a0, b0) { Some(Ordering::Equal) => (), x => return x } match ::core::cmp::PartialOrd::partial_cmp(a1, b1) { Some(Ordering::Equal) => (), x => return x } Some(Ordering::Equal) }, _ => Some(o_disc(a).cmp(&o_disc(b))) } }
+pub fn run(out: &mut Out) { let vs = values(); for (i, a) in vs.iter().enumerate() { for (j, b) in vs.iter().enumerate() { let e = o_pcmp(a, b); let g = ::core::cmp::PartialOrd::partial_cmp(a, b); out.check(g == e, "ord_27", "partial_cmp", || format!("partial_cmp({}, {}) = {:?} expected {:?}", show(a), show(b), g, e)); } } }
